@@ -330,9 +330,11 @@ def run(ctx):
         elines.append("G %d %d %d" % (s, rng.choice([2, 2, 3, 4]), 1 if i % 5 == 4 else 0))
     for i, s in enumerate(seeds(nW)):
         # bit 4: one tree blob at several paths (directories of hard links) + anchored excludes below one occurrence
-        elines.append("W %d %d" % (s, [0, 4, 2, 6, 0, 1, 4, 2][i % 8]))
+        # bit 8: a glob that also matches the empty root path (`!*`, `!**`, `!/**`, ...)
+        elines.append("W %d %d" % (s, [0, 4, 2, 6, 8, 1, 4, 2, 0, 10][i % 10]))
     for i, s in enumerate(seeds(nR)):
-        elines.append("R %d %d" % (s, i % 8))
+        # bit 8: a file whose marked name sorts after its siblings (`k` -> `k.repaired` > `k+`, `k-1`) loses its data
+        elines.append("R %d %d" % (s, (i % 8) if i % 4 else (8 | (i % 8 & 2))))
     if ctx.replay:
         rp = json.load(open(ctx.replay))
         c = rp["witness"].get("case", "")
@@ -422,7 +424,7 @@ def run(ctx):
             if m in "WR" and len(segs) > 1:
                 tie_modifier(m, ln, segs[1:], wr_jobs)
             d = kv(out)
-            for k_ in ("coll", "coll_tree", "prepop", "excluded", "marked", "repaired", "tree_pack", "unsorted", "present_before", "needed", "needed_ok", "damaged", "lost_tree_pack", "lost_blobs", "shared_dirs"):
+            for k_ in ("coll", "coll_tree", "prepop", "excluded", "marked", "repaired", "tree_pack", "unsorted", "present_before", "needed", "needed_ok", "damaged", "lost_tree_pack", "lost_blobs", "shared_dirs", "root_ignored", "lookup_ok", "merge_self_ok"):
                 if k_ in d and d[k_].isdigit():
                     hist["%s_%s" % (m, k_)] = hist.get("%s_%s" % (m, k_), 0) + int(d[k_])
             if m == "C" and int(d.get("present_before", 0)) + int(d.get("coll", 0)) + int(d.get("coll_tree", 0)) + int(d.get("damaged", 0)) > 0: nontriv.add(ln)
